@@ -72,6 +72,16 @@ CTermination == C!CTermination
 Final(t) == [j \in DOMAIN Programs[t] |-> LET e == Eval(PoolDef[Programs[t][j]].rule, PoolDef[Programs[t][j]].data) IN [ok |-> e.ok, v |-> e.v]]
 ResultsFunctionOfProgramsOnly == C!AllDone => \A t \in ThreadsDef : results[t] = Final(t)
 
+\* ---- Calls refines the abstract protocol whose safety is PROVED for all parameters in CallsProof.tla (TLAPS):
+\* Begin / End map to themselves, Emit (a log line) is a stuttering step, the outcome function is Eval
+InputsDef == {PoolDef[q] : q \in DOMAIN PoolDef}
+ResOfDef == [x \in InputsDef |-> LET e == Eval(x.rule, x.data) IN [ok |-> e.ok, v |-> e.v]]
+CP == INSTANCE CallsProof WITH Threads <- ThreadsDef, Inputs <- InputsDef, Outcomes <- {ResOfDef[x] : x \in InputsDef},
+        ResOf <- ResOfDef,
+        Prog <- [t \in ThreadsDef |-> [j \in DOMAIN Programs[t] |-> PoolDef[Programs[t][j]]]],
+        pool <- [t \in ThreadsDef |-> [j \in DOMAIN Programs[t] |-> pool[Programs[t][j]]]]
+RefinesProvedProtocol == CP!Spec
+
 \* ---- export: one history per program assignment (the initial states)
 IsInitial == \A t \in ThreadsDef : pc[t] = 1 /\ st[t] = "idle" /\ results[t] = <<>>
 ThreadSeq == [q \in 1..Cardinality(ThreadsDef) |-> q]
